@@ -38,7 +38,7 @@ func (c *Call) String() string {
 type Hist struct {
 	Calls []*Call
 	tick  int
-	Note  string // set by the judge: schedule-dependent observation made after the run (final value)
+	Note  string       // set by the judge: schedule-dependent observation made after the run (final value)
 	mu    gosync.Mutex // only contended in the free-running race pass (RunFree)
 }
 
